@@ -36,7 +36,7 @@ META = dict(
                "derived time is compared with the time the code actually passed, and every report is compared.",
     level_note="Model follows the repaired code (commits ca093363 / 8b42f9d0). Assumption: a wall clock read inside a tick "
                "equals the tick time (exact under the harness' virtual clock; in production later by the tick's compute "
-               "time) - the 12 wall-clock sites are pinned by a theorem, and runs with a clock that advances inside the "
+               "time) - the wall-clock sites are characterised structurally by a theorem (only where no tick time is at hand), and runs with a clock that advances inside the "
                "tick check that only the tags of those sites deviate. The oracle is two-sided and exact: runs are "
                "observed call by call, a reported time must equal the time of the tick of the last call that changed the "
                "tag (only exception: the engine's stamp of all system tags in its first tick); after stop_simulation the "
@@ -48,7 +48,8 @@ META = dict(
               "exact two-sided engine-level oracle",
 )
 MODULE = "OPM.Properties.C16"
-REQUIRED = ["OPM.C16.sites_pass_tick_time", "OPM.C16.wall_clock_sites_pinned", "OPM.C16.tick_time_fields_hold_the_tick_time",
+REQUIRED = ["OPM.C16.sites_pass_tick_time", "OPM.C16.wall_clock_only_without_tick_time",
+            "OPM.C16.forward_sites_are_wrappers", "OPM.C16.tick_time_fields_hold_the_tick_time",
             "OPM.C16.every_site_passes_the_tick_time", "OPM.C16.changed_value_carries_tick_time",
             "OPM.C16.reported_change_carries_tick_time", "OPM.C16.reported_times_within_start_now",
             "OPM.C16.reported_times_monotone", "OPM.C16.blockTime_passes_event_time",
@@ -243,7 +244,7 @@ def run(ctx: Check) -> int:
                 "generators observed call by call, every 4th with a wall clock that advances 1/64 s inside each tick; "
                 f"long-gap runs (reports after 1-300 ticks). {n_corpus} corpus cases run first.")
     ctx.exhaustive = False
-    ctx.assumptions = ["a wall clock read inside a tick equals the tick time (virtual clock; pinned wall-clock sites)",
+    ctx.assumptions = ["a wall clock read inside a tick equals the tick time (virtual clock; wall-clock sites only where no tick time is at hand)",
                        "tick times handed to Engine.tick do not decrease",
                        "tags carry their construction time until first set; construction time is taken as engine start",
                        "reports are taken between engine ticks"]
